@@ -942,6 +942,11 @@ func (d *Decoder) Decode() (Assertion, error) {
 		contentBuf.Truncate(headLen)
 	}
 
+	if bytes.HasPrefix(sig, nl) {
+		// as Decode: exactly one empty line separates content and signature
+		return nil, fmt.Errorf("unexpected empty line before assertion signature")
+	}
+
 	// normalize sig ending newlines
 	if bytes.HasSuffix(sig, nlnl) {
 		sig = sig[:len(sig)-1]
